@@ -44,10 +44,52 @@ func (e *Enc) execCall(fr *Frame, c *ssa.CallCommon, instr ssa.Instruction, cur 
 		return e.execStatic(fr, fv.Fn, args, fv.Binds, resType, pos, cur, instr)
 	}
 	name := dynName(c.Value)
+	if target := e.cs.DynBind[name]; target != "" {
+		if fn := e.w.Funcs[target]; fn != nil {
+			e.note("dynamic call of " + name + " bound to " + target + " (declared with dynbind; the field is assumed to hold only that function)")
+			e.countCall(cur, "dyn:"+name, args)
+			ms := e.mods.of(fn)
+			if ms == nil {
+				ms = newModSet()
+				ms.Top = true
+			}
+			before := cur.st.clone()
+			e.havocMods(fr, cur.st, ms, false)
+			e.allocMonotone(before, cur.st)
+			e.clockMonotone(before, cur.st)
+			r := e.freshResult(resType, cur, "dyn_"+sanitize(name))
+			e.recordRet(cur, "dyn:"+name, r)
+			return r
+		}
+	}
+	if fns := e.mods.returnedClosures(c.Value); len(fns) > 0 || e.mods.isFuncParam(fr.fn, c.Value) {
+		// iterator closure returned by an in-module constructor, or a callback parameter:
+		// havoc by the summaries of the possible targets and of the function values passed in
+		ms := newModSet()
+		for _, fn := range fns {
+			if o := e.mods.of(fn); o != nil {
+				ms.union(o)
+				if o.Top {
+					ms.Top = true
+				}
+			}
+		}
+		e.mods.funcArgMods(fr.fn, c, ms)
+		e.countCall(cur, "dyn:"+name, args)
+		before := cur.st.clone()
+		e.havocMods(fr, cur.st, ms, false)
+		e.allocMonotone(before, cur.st)
+		e.clockMonotone(before, cur.st)
+		r := e.freshResult(resType, cur, "dyn_"+sanitize(name))
+		e.recordRet(cur, "dyn:"+name, r)
+		return r
+	}
 	if fv.Ext || e.mods.dynPure(fr.fn, c.Value) {
 		e.note("dynamic call of " + name + " treated as external: arbitrary result, no effect on module state")
 		e.countCall(cur, "dyn:"+name, args)
-		return e.freshResult(resType, cur, "dyn_"+sanitize(name))
+		r := e.freshResult(resType, cur, "dyn_"+sanitize(name))
+		e.recordRet(cur, "dyn:"+name, r)
+		return r
 	}
 	// unknown function value: havoc everything
 	e.note("dynamic call of unknown function value " + name + " in " + fr.name + ": all state havocked")
@@ -84,6 +126,42 @@ func (e *Enc) freshResult(t types.Type, cur *pathState, base string) Val {
 func (e *Enc) countCall(cur *pathState, name string, args []Val) {
 	c := e.comp("calls_"+sanitize(name), "Int", "ghost", "G:calls:"+name)
 	e.set(cur.st, c, "(+ "+e.get(cur.st, c)+" 1)")
+	for i, a := range args {
+		if a.T == "" || a.S == "" || a.Tup != nil {
+			continue
+		}
+		ac := e.comp(fmt.Sprintf("lastarg%d_%s", i, sanitize(name)), a.S, "ghost", "G:calls:"+name)
+		if ac.Sort != a.S {
+			continue
+		}
+		e.set(cur.st, ac, a.T)
+	}
+}
+
+// recordRet remembers the value(s) returned by the last call of name (lastret(f) in specs).
+func (e *Enc) recordRet(cur *pathState, name string, res Val) {
+	vals := res.Tup
+	if vals == nil {
+		if res.T == "" || res.S == "" || res.S == "Unit" {
+			return
+		}
+		vals = []Val{res}
+	}
+	for i, v := range vals {
+		if v.T == "" || v.S == "" {
+			continue
+		}
+		rc := e.comp(fmt.Sprintf("lastret%d_%s", i, sanitize(name)), v.S, "ghost", "G:calls:"+name)
+		if rc.Sort != v.S {
+			continue
+		}
+		e.set(cur.st, rc, v.T)
+		if v.S == "Int" && i == 0 {
+			// countret(f, x): how many direct calls of f returned x
+			cc := e.comp("retcount_"+sanitize(name), "(Array Int Int)", "ghost", "G:calls:"+name)
+			e.set(cur.st, cc, store(e.get(cur.st, cc), v.T, "(+ "+sel(e.get(cur.st, cc), v.T)+" 1)"))
+		}
+	}
 }
 
 func (e *Enc) callsComp(name string) *Comp {
@@ -207,14 +285,21 @@ func (e *Enc) execAppend(fr *Frame, c *ssa.CallCommon, args []Val, cur *pathStat
 	s := args[0].T
 	t := args[1]
 	var n string // number of appended elements
-	if t.S == "Str" {
+	knownN := t.S == "Slice" && t.KLenKnown && t.KLen >= 1 && t.KLen <= 4
+	switch {
+	case knownN:
+		n = fmt.Sprint(t.KLen)
+	case t.S == "Str":
 		n = "(strlen " + t.T + ")"
-	} else {
+	default:
 		n = "(s_len " + t.T + ")"
 	}
 	old := e.get(cur.st, comp)
 	inplace := e.defineFresh("app_inplace", "Bool", fmt.Sprintf("(and (<= (+ (s_len %s) %s) (s_cap %s)) (not (= (s_arr %s) nil)))", s, n, s, s))
-	noop := e.defineFresh("app_noop", "Bool", eq(n, "0"))
+	noop := "false"
+	if !knownN {
+		noop = e.defineFresh("app_noop", "Bool", eq(n, "0"))
+	}
 	// fresh backing array for the reallocation case
 	a := e.allocComp()
 	fr0 := e.fresh("apparr")
@@ -224,32 +309,46 @@ func (e *Enc) execAppend(fr *Frame, c *ssa.CallCommon, args []Val, cur *pathStat
 	ncap := e.fresh("appcap")
 	e.declare(ncap, "Int")
 	e.assume(fmt.Sprintf("(>= %s (+ (s_len %s) %s))", ncap, s, n))
-	// new contents
+	// new contents of the (old or fresh) backing array
 	nc := e.fresh("appcont")
 	e.declare(nc, "(Array Int "+es+")")
-	off := e.defineFresh("app_off", "Int", ite(inplace, "(s_off "+s+")", "0"))
-	// prefix: in place => untouched old array except appended region; realloc => copy
+	// result slice and new element component: fresh symbols tied by guarded equalities
+	r := e.fresh("appres")
+	e.declare(r, "Slice")
+	se2 := e.fresh(comp.Name)
+	e.declare(se2, comp.Sort)
+	live := not(noop)
+	e.assume(implies(and(live, inplace), fmt.Sprintf("(and (= %s (mkslice (s_arr %s) (s_off %s) (+ (s_len %s) %s) (s_cap %s))) (= %s (store %s (s_arr %s) %s)))", r, s, s, s, n, s, se2, old, s, nc)))
+	e.assume(implies(and(live, not(inplace)), fmt.Sprintf("(and (= %s (mkslice %s 0 (+ (s_len %s) %s) %s)) (= %s (store %s %s %s)))", r, fr0, s, n, ncap, se2, old, fr0, nc)))
+	if noop != "false" {
+		e.assume(implies(noop, and(eq(r, s), eq(se2, old))))
+	}
+	// prefix: in place => old array untouched outside the appended region; realloc => copy
 	e.assume(fmt.Sprintf("(=> %s (forall ((i Int)) (! (=> (or (< i (+ (s_off %s) (s_len %s))) (>= i (+ (s_off %s) (s_len %s) %s))) (= (select %s i) (select (select %s (s_arr %s)) i))) :pattern ((select %s i)))))", inplace, s, s, s, s, n, nc, old, s, nc))
 	e.assume(fmt.Sprintf("(=> (not %s) (forall ((i Int)) (! (=> (and (<= 0 i) (< i (s_len %s))) (= (select %s (sidx 0 i)) (select (select %s (s_arr %s)) (sidx (s_off %s) i)))) :pattern ((select %s (sidx 0 i))) :pattern ((select (select %s (s_arr %s)) (sidx (s_off %s) i))))))", inplace, s, nc, old, s, s, nc, old, s, s))
-	// appended region
+	// appended region (indexed through the result slice's own offset)
 	if t.S == "Slice" {
-		if t.KLenKnown && t.KLen <= 4 {
+		if knownN {
 			for i := 0; i < t.KLen; i++ {
-				e.assume(fmt.Sprintf("(= (select %s (sidx %s (+ (s_len %s) %d))) (select (select %s (s_arr %s)) (sidx (s_off %s) %d)))", nc, off, s, i, old, t.T, t.T, i))
+				e.assume(fmt.Sprintf("(= (select %s (sidx (s_off %s) (+ (s_len %s) %d))) (select (select %s (s_arr %s)) (sidx (s_off %s) %d)))", nc, r, s, i, old, t.T, t.T, i))
 			}
 		} else {
-			e.assume(fmt.Sprintf("(forall ((j Int)) (! (=> (and (<= 0 j) (< j %s)) (= (select %s (sidx %s (+ (s_len %s) j))) (select (select %s (s_arr %s)) (sidx (s_off %s) j)))) :pattern ((select (select %s (s_arr %s)) (sidx (s_off %s) j))))))", n, nc, off, s, old, t.T, t.T, old, t.T, t.T))
+			e.assume(fmt.Sprintf("(forall ((j Int)) (! (=> (and (<= 0 j) (< j %s)) (= (select %s (sidx (s_off %s) (+ (s_len %s) j))) (select (select %s (s_arr %s)) (sidx (s_off %s) j)))) :pattern ((select (select %s (s_arr %s)) (sidx (s_off %s) j))))))", n, nc, r, s, old, t.T, t.T, old, t.T, t.T))
 		}
 	}
-	arr := e.defineFresh("app_arr", "Ref", ite(inplace, "(s_arr "+s+")", fr0))
-	e.set(cur.st, comp, ite(noop, old, store(old, arr, nc)))
-	res := fmt.Sprintf("(ite %s %s (mkslice %s %s (+ (s_len %s) %s) %s))", noop, s, arr, off, s, n, ite(inplace, "(s_cap "+s+")", ncap))
-	return Val{T: res, S: "Slice"}
+	cur.st.v[comp.Name] = se2
+	return Val{T: r, S: "Slice"}
 }
 
 // ---------- static calls ----------
 
 func (e *Enc) execStatic(fr *Frame, callee *ssa.Function, args []Val, binds []Val, resType types.Type, pos token.Pos, cur *pathState, instr ssa.Instruction) Val {
+	res := e.execStatic0(fr, callee, args, binds, resType, pos, cur, instr)
+	e.recordRet(cur, shortFuncName(callee), res)
+	return res
+}
+
+func (e *Enc) execStatic0(fr *Frame, callee *ssa.Function, args []Val, binds []Val, resType types.Type, pos token.Pos, cur *pathState, instr ssa.Instruction) Val {
 	full := callee.String()
 	if callee.Origin() != nil {
 		full = callee.Origin().String()
@@ -290,7 +389,7 @@ func (e *Enc) execStatic(fr *Frame, callee *ssa.Function, args []Val, binds []Va
 	e.callSiteAsserts(fr, name, args, cur, pos)
 	// safety: nil receiver for pointer-receiver methods
 	if e.safeMode && callee.Signature.Recv() != nil && len(args) > 0 && args[0].S == "Ref" {
-		if _, isPtr := callee.Signature.Recv().Type().(*types.Pointer); isPtr && !(fc != nil && fc.Inline) && !isNilSafeGetter(callee) {
+		if _, isPtr := callee.Signature.Recv().Type().(*types.Pointer); isPtr && !(fc != nil && fc.Inline) && !isNilSafeGetter(callee) && !nilSafeMethod(callee) {
 			e.safety(fr, cur, "nilrecv", pos, not(eq(args[0].T, "nil")), instr)
 		}
 	}
@@ -298,7 +397,7 @@ func (e *Enc) execStatic(fr *Frame, callee *ssa.Function, args []Val, binds []Va
 	if inline && callee.Blocks != nil && fr.depth < maxInlineDepth && !e.onStack(fr, callee) {
 		return e.inlineCall(fr, callee, args, binds, resType, cur)
 	}
-	if fc != nil && (len(fc.Ensures) > 0 || fc.HasMod || len(fc.Requires) > 0 || fc.Trusted || fc.Pure) {
+	if fc != nil && (len(fc.Ensures) > 0 || fc.HasMod || len(fc.Requires) > 0 || fc.Trusted || fc.Pure || len(fc.GhostEffects) > 0) {
 		return e.contractCall(fr, fc, callee, args, resType, pos, cur, "call:"+name)
 	}
 	// no contract: havoc by mod-set
@@ -447,6 +546,16 @@ func calleeMatches(pat, name string) bool {
 // ---------- interface invokes ----------
 
 func (e *Enc) execInvoke(fr *Frame, c *ssa.CallCommon, recv Val, args []Val, resType types.Type, pos token.Pos, cur *pathState, instr ssa.Instruction) Val {
+	res := e.execInvoke0(fr, c, recv, args, resType, pos, cur, instr)
+	short := typeStr(c.Value.Type())
+	if n, ok := c.Value.Type().(*types.Named); ok {
+		short = n.Obj().Name()
+	}
+	e.recordRet(cur, short+"."+c.Method.Name(), res)
+	return res
+}
+
+func (e *Enc) execInvoke0(fr *Frame, c *ssa.CallCommon, recv Val, args []Val, resType types.Type, pos token.Pos, cur *pathState, instr ssa.Instruction) Val {
 	it := c.Value.Type()
 	iname := typeStr(it)
 	m := c.Method.Name()
@@ -457,15 +566,22 @@ func (e *Enc) execInvoke(fr *Frame, c *ssa.CallCommon, recv Val, args []Val, res
 	if e.safeMode {
 		e.safety(fr, cur, "nilrecv", pos, not(eq(recv.T, "nilI")), instr)
 	}
+	e.assumeIf(cur.reach, not(eq(recv.T, "nilI")))
 	short := iname
 	if n, ok := it.(*types.Named); ok {
 		short = n.Obj().Name()
 	}
 	key := short + "." + m
-	e.countCall(cur, key, args)
+	e.countCall(cur, key, append([]Val{recv}, args...))
 	e.callSiteAsserts(fr, key, append([]Val{recv}, args...), cur, pos)
 	if fc := e.cs.Ifaces[key]; fc != nil {
 		fn := e.ifaceMethodFunc(it, m)
+		ifaceNamed, _ = it.(*types.Named)
+		if ifaceNamed != nil && (ifaceNamed.Obj().Pkg() == nil || !inModule(ifaceNamed.Obj().Pkg().Path())) {
+			ifaceNamed = nil
+		}
+		ifaceMethod = m
+		defer func() { ifaceNamed = nil }()
 		return e.contractCallSig(fr, fc, fn, c.Method.Type().(*types.Signature), append([]Val{recv}, args...), resType, pos, cur, "call:"+key, true)
 	}
 	named, _ := it.(*types.Named)
@@ -495,6 +611,9 @@ func (e *Enc) contractCall(fr *Frame, fc *FuncContract, callee *ssa.Function, ar
 	return e.contractCallSig(fr, fc, callee, callee.Signature, args, resType, pos, cur, label, false)
 }
 
+var ifaceNamed *types.Named
+var ifaceMethod string
+
 func (e *Enc) contractCallSig(fr *Frame, fc *FuncContract, callee *ssa.Function, sig *types.Signature, args []Val, resType types.Type, pos token.Pos, cur *pathState, label string, isIface bool) Val {
 	env := e.contractEnv(fc, callee, sig, args, isIface)
 	pre := cur.st.clone()
@@ -516,6 +635,29 @@ func (e *Enc) contractCallSig(fr *Frame, fc *FuncContract, callee *ssa.Function,
 	}
 	// frame: havoc modifies
 	post := cur.st
+	if (fc.NoFrame || !fc.HasMod) && !fc.Pure {
+		// the contract does not (verifiably) bound the callee's writes: fall back to the
+		// body-derived mod-set of the callee (or of all implementations for interfaces)
+		ms := newModSet()
+		if callee != nil {
+			if o := e.mods.of(callee); o != nil {
+				ms.union(o)
+				ms.Top = o.Top
+			} else {
+				ms.Top = true
+			}
+		} else if ifaceNamed != nil {
+			for _, impl := range e.mods.implsOf(ifaceNamed, ifaceMethod) {
+				if o := e.mods.of(impl); o != nil {
+					ms.union(o)
+					if o.Top {
+						ms.Top = true
+					}
+				}
+			}
+		}
+		e.havocMods(fr, post, ms, false)
+	}
 	e.applyModifies(fc, env, callee, pre, post)
 	e.allocMonotone(pre, post)
 	e.clockMonotone(pre, post)
@@ -527,13 +669,31 @@ func (e *Enc) contractCallSig(fr *Frame, fc *FuncContract, callee *ssa.Function,
 	} else if res.S != "Unit" {
 		rvals = []Val{res}
 	}
-	for _, c := range fc.Ensures {
+	for _, c := range fc.GhostEffects {
 		t, err := e.evalSpec(c.Expr, &SpecCtx{e: e, pkg: fc.Pkg, pos: fcPos(callee), params: env, cur: post, old: pre, results: rvals, sig: sig, fc: fc})
 		if err != nil {
-			e.errorf("%s: ensures of %s: %v", fr.name, fc.Name, err)
+			e.errorf("%s: ghost-effect of %s: %v", fr.name, fc.Name, err)
 			continue
 		}
 		e.assumeIf(cur.reach, t.T)
+	}
+	for _, c := range fc.Ensures {
+		for _, part := range splitConjuncts(c.Expr) {
+			if mentionsCallGhosts(part) {
+				// postconditions about the callee's own direct calls say nothing in the caller
+				continue
+			}
+			t, err := e.evalSpec(part, &SpecCtx{e: e, pkg: fc.Pkg, pos: fcPos(callee), params: env, cur: post, old: pre, results: rvals, sig: sig, fc: fc})
+			if err != nil {
+				if strings.Contains(err.Error(), "unknown identifier") {
+					// clause about the callee's local variables: meaningless for callers
+					continue
+				}
+				e.errorf("%s: ensures of %s: %v", fr.name, fc.Name, err)
+				continue
+			}
+			e.assumeIf(cur.reach, t.T)
+		}
 	}
 	return res
 }
@@ -570,4 +730,69 @@ func (e *Enc) contractEnv(fc *FuncContract, callee *ssa.Function, sig *types.Sig
 		i++
 	}
 	return env
+}
+
+func mentionsCallGhosts(x SExpr) bool {
+	switch n := x.(type) {
+	case *SCall:
+		if n.Fn == "calls" || n.Fn == "lastret" || n.Fn == "lastarg" || n.Fn == "countret" || n.Fn == "countrecv" || n.Fn == "recvs" {
+			return true
+		}
+		for _, a := range n.Args {
+			if mentionsCallGhosts(a) {
+				return true
+			}
+		}
+	case *SBin:
+		return mentionsCallGhosts(n.L) || mentionsCallGhosts(n.R)
+	case *SUn:
+		return mentionsCallGhosts(n.X)
+	case *SQuant:
+		return mentionsCallGhosts(n.Body)
+	case *SField:
+		return mentionsCallGhosts(n.X)
+	case *SIndex:
+		return mentionsCallGhosts(n.X) || mentionsCallGhosts(n.I)
+	}
+	return false
+}
+
+// nilSafeMethod: the method starts by testing its receiver against nil.
+func nilSafeMethod(fn *ssa.Function) bool {
+	if len(fn.Blocks) == 0 || len(fn.Params) == 0 {
+		return false
+	}
+	b := fn.Blocks[0]
+	var recvAlloc *ssa.Alloc
+	for _, ins := range b.Instrs {
+		if st, ok := ins.(*ssa.Store); ok && st.Val == ssa.Value(fn.Params[0]) {
+			if a, ok := st.Addr.(*ssa.Alloc); ok {
+				recvAlloc = a
+			}
+		}
+	}
+	iff, ok := b.Instrs[len(b.Instrs)-1].(*ssa.If)
+	if !ok {
+		return false
+	}
+	bo, ok := iff.Cond.(*ssa.BinOp)
+	if !ok || (bo.Op != token.EQL && bo.Op != token.NEQ) {
+		return false
+	}
+	isRecv := func(v ssa.Value) bool {
+		if v == ssa.Value(fn.Params[0]) {
+			return true
+		}
+		if u, ok := v.(*ssa.UnOp); ok && u.Op == token.MUL {
+			if a, ok := u.X.(*ssa.Alloc); ok && a == recvAlloc {
+				return true
+			}
+		}
+		return false
+	}
+	isNil := func(v ssa.Value) bool {
+		c, ok := v.(*ssa.Const)
+		return ok && c.Value == nil
+	}
+	return (isRecv(bo.X) && isNil(bo.Y)) || (isRecv(bo.Y) && isNil(bo.X))
 }
